@@ -39,6 +39,7 @@ PROBES = [
     "remove-no-graph-hit-2+graphs",
     "bnode-and-iri-same-string",
     "quads-reader-resumed-after-mutation",
+    "quad-with-None-graph",
 ]
 KNOWN_PREDICATES = {
     # an open quads() iterator meets a triple that was removed from every graph meanwhile: the store then reports the contexts of
@@ -403,6 +404,9 @@ def execute(trace, ctx):
             if via in ("view", "storedview"):
                 v = views[op["sv"]][0] if via == "storedview" and op.get("sv") in views and views[op["sv"]][1] == gk else view_of(gi)
                 v.add(triple)
+            elif gi is None and op.get("as") == "id" and op["uid"] % 3 == 0:
+                (cg if via == "cg" else ds).add(triple + (None,))  # a quad whose graph is None -> default graph
+                ctx.probe("quad-with-None-graph")
             elif gi is None and op.get("as") == "id":
                 (cg if via == "cg" else ds).add(triple)  # triple without graph -> default graph
             else:
@@ -411,7 +415,7 @@ def execute(trace, ctx):
             removed.discard(gk)
         elif k == "addN":
             store_empty[0] = False
-            quads = [(T(s), T(p), T(o), garg(op, gi)) for s, p, o, gi in op["q"]]
+            quads = [(T(s), T(p), T(o), garg(op, gi) if not (gi is None and op["uid"] % 2) else None) for s, p, o, gi in op["q"]]
             (cg if via == "cg" else ds).addN(quads)
             for s, p, o, gi in op["q"]:
                 model.setdefault(gkey(gi), set()).add((skey(s), skey(p), skey(o)))
